@@ -26,7 +26,7 @@ ToSet(q) == { q[i] : i \in 1..Len(q) }
 VARIABLES cid, fs, k, ok, cut
 tvars == <<vars, cid, fs, k, ok, cut>>
 
-DeclOf(j) == [st |-> ToSet(j.st), ev |-> ToSet(j.ev), tt |-> ToSet(j.tt), svc |-> ToSet(j.svc), resp |-> j.resp, sf |-> j.sf]
+DeclOf(j) == [st |-> ToSet(j.st), ev |-> ToSet(j.ev), tt |-> ToSet(j.tt), svc |-> ToSet(j.svc), resp |-> j.resp, sf |-> j.sf, alt |-> j.alt]
 DefsOf(q) == [i \in 1..Len(q) |-> [n |-> q[i].n, d |-> DeclOf(q[i].d)]]
 
 TInit == /\ cid \in 1..Len(Cases) /\ fs \in 1..Len(FlagSeqs) /\ k = 0 /\ ok = TRUE /\ cut = 0
@@ -63,11 +63,16 @@ Matches(o) == ObsVal(o) = Proj' /\ Len(o.runs) = Cardinality(runs')
 \* generators respect them for flags = {}; under a deviation the state differs (e.g. a definition that should be
 \* gone still owns a service name) and a later action may fall outside the specified region: what the code does
 \* then is not specified, the recording is judged up to that step only (cut = that step).
-InRegion(a) == CASE a.a \in {"define", "push"} -> ConflictOK(a.c, DeclOf(a.d))
-                 [] a.a = "reload" -> ContentOK(a.c, DefsOf(a.defs)) /\ ContentOK(Module, DefsOf(a.mdefs))
+\* (the same for the named deviation "service-bookkeeping-keyed-by-spelling": from the first declaration that
+\* spells a registered name differently on, what the code does is not modelled)
+BySpelling == "service-bookkeeping-keyed-by-spelling" \in flags
+InRegion(a) == CASE a.a \in {"define", "push"} -> ConflictOK(a.c, DeclOf(a.d)) /\ ~(BySpelling /\ SpellingCollision(DeclOf(a.d)))
+                 [] a.a = "reload" -> /\ ContentOK(a.c, DefsOf(a.defs)) /\ ContentOK(Module, DefsOf(a.mdefs))
+                                      /\ ~(BySpelling /\ SpellingCollisionIn(DefsOf(a.defs) \o DefsOf(a.mdefs)))
+                 [] a.a = "boot" -> ~(BySpelling /\ SpellingCollisionIn(DefsOf(a.d1) \o DefsOf(a.d2)))
                  \* what a module that was imported by a session cell and never started does later is not modelled
                  \* (named deviation): the recording is judged up to that import
-                 [] a.a = "import" -> /\ ContentOK(Module, DefsOf(a.mdefs))
+                 [] a.a = "import" -> /\ ContentOK(Module, DefsOf(a.mdefs)) /\ ~(BySpelling /\ SpellingCollisionIn(DefsOf(a.mdefs)))
                                       /\ ~(SessionImportDelays(a.c, a.via) /\ Module \notin loaded /\ ~a.fail)
                  [] a.a = "call"   -> (hd[a.s] # 0 /\ G[hd[a.s]].d.resp = "only") => a.rr
                  [] OTHER -> TRUE
